@@ -40,7 +40,8 @@ TRUSTED_BASE = [
     "z3 5.1.0 (SMT solver, via the z3-solver Python API) and cvc5 1.0.3 (CLI) as back ends",
     "pyvc: the home-built ast->VC symbolic executor in /verif/pyvc (encoding of Python semantics, DESIGN.md section 2)",
     "trusted specifications of builtins: len min max abs range enumerate reversed list dict tuple isinstance int str, "
-    "str.find/format/startswith, dict.get/items, list.append/extend/slicing",
+    "str.find/format/startswith, dict.get/items, list.append/extend/slicing; str.count with a one-character needle: "
+    "0 <= count <= len(s) and count == 0 iff s.find(c) == -1, the number itself uninterpreted",
     "CPython's ast module (extraction of the real functions from /repo on every run)",
 ]
 
